@@ -307,7 +307,7 @@ def generate_C06(rng, tier):
             yield _with(e, vs)
     for c in sampled_cases(rng, tier)[:6 if tier == "quick" else 40]:
         for e in (DELTA, FOR, PFOR, DICT, TAGGED):
-            if c[1] <= 300000:
+            if c[1] <= 100000:
                 yield "adaptive_withg %d %d %d %d %d %d" % ((e,) + c)
     yield from two_call_cases(rng, tier)
     # full bitmaps: 4095 / 4096 / 4097 members (array -> bitmap container) and all 65536
